@@ -536,12 +536,17 @@ func (h *dpHist) readAll(who string, rt *ReadTran, want []map[uint64]dpRow, t *d
 
 // observe: the latest state and every open transaction
 func (h *dpHist) observe() {
-	h.readAll("-", h.db.NewReadTran(), h.live, nil)
+	// a panic while reading (e.g. an index entry that points nowhere) is an outcome, not a crash
+	if msg := lib.Catch(func() { h.readAll("-", h.db.NewReadTran(), h.live, nil) }); msg != "" {
+		h.fail("read-panic", "reading the latest state: "+msg)
+	}
 	for _, t := range h.trans {
-		if t.dead {
+		if t.dead || h.failed {
 			continue
 		}
-		h.readAll(fmt.Sprint(t.id), t.rt, t.view, t)
+		if msg := lib.Catch(func() { h.readAll(fmt.Sprint(t.id), t.rt, t.view, t) }); msg != "" {
+			h.fail("read-panic", fmt.Sprintf("reading through t%d: %s", t.id, msg))
+		}
 	}
 }
 
